@@ -125,6 +125,10 @@ FALSE_ID = tid(FALSE)
 _NOT_CHILD = {}      # id of Not(x) -> x, for terms built through the memo
 
 
+import os as _os
+_TWIN = _os.environ.get('VERIF_TWIN') or None
+
+
 def _crc(e):
     import zlib
     return zlib.crc32(e.sexpr().encode())
@@ -379,6 +383,8 @@ class Engine:
         model; the path continues under the assumption that cond holds, or
         ends if cond is unsatisfiable."""
         self.stats.obligations += 1
+        if _TWIN is not None and name == _TWIN:
+            cond = False          # vacuity twin: this obligation must be reported and must replay
         sym = getattr(type(cond), '_is_sym', False)
         if not sym:
             if cond:
